@@ -247,6 +247,14 @@ def run(ctx):
         ctx.extra['enumeration_length'] = k
         ctx.extra['enumeration_alphabet'] = ALPHABET
 
+        # reserved words as property names and accessor layouts, systematically (see vk/gen/products.py)
+        from vk.gen import products
+        for idx, (key, text) in enumerate(products.lexical_products()):
+            if idx % ctx.nshards != ctx.shard or (ctx.tier == 'quick' and (idx // ctx.nshards) % 2):
+                continue
+            check_text(ctx, text, 'lexical_product', 9, 8)
+            ctx.hit('lexical_product')
+
         def opts_fn(i, rng):
             return jsgen.Opts(clean=(i % 3 != 0), unicode_idents=(i % 5 == 0),
                               string_continuations=(i % 4 == 0))
